@@ -93,7 +93,15 @@ class Real(object):
                     sec[k] = e["v"]
             elif op == "get":
                 ev.update(k=e["k"], add=bool(e["add"]))
-                r = sec.get(e["k"], add=bool(e["add"]))
+                self.calls = getattr(self, "calls", 0) + 1
+                items_now = list(list.__iter__(sec))
+                plain = [i for i in items_now if not (i.value == 1 and not isinstance(i.value, bool))]
+                if self.calls % 3 == 0 and plain:
+                    # the default may be an item, e.g. one that already sits in the section: it is a template, never the result
+                    r = sec.get(e["k"], default=plain[self.calls % len(plain)], add=bool(e["add"]))
+                    ev["via"] = "default-item"
+                else:
+                    r = sec.get(e["k"], add=bool(e["add"]))
                 known = id(r) in self.ids
                 rid = self.ident(r)
                 ev.update(rid=rid, reto=r.original_mnemonic, nid=rid if not known else 0)
